@@ -35,6 +35,21 @@ Theorem C03_once_sorted_all_chunks : forall lazy wrl limit batch scripts,
 Proof. exact proxy_spec. Qed.
 Print Assumptions C03_once_sorted_all_chunks.
 
+(* "The result is the same for lazy and eager retrieval, any buffer size and any response
+   batch size": two runs over the same stores that differ in retrieval strategy and batch size
+   return the same label sets in the same order, each with the same set of chunk keys. *)
+Theorem C03_strategy_independent : forall lazy1 lazy2 batch1 batch2 wrl limit scripts,
+  limit <= 0 ->
+  (forall s, In s scripts -> sopen_err s = None /\ send s = EEof) ->
+  inputs_sorted lazy1 wrl scripts -> inputs_sorted lazy2 wrl scripts ->
+  exists f1 f2,
+    proxy lazy1 wrl false limit batch1 scripts = Some f1 /\ proxy lazy2 wrl false limit batch2 scripts = Some f2
+    /\ map fst (sers (unbatch f1)) = map fst (sers (unbatch f2))
+    /\ (forall X cs1 cs2, In (X, cs1) (sers (unbatch f1)) -> In (X, cs2) (sers (unbatch f2)) ->
+          forall k, In k (map ckey cs1) <-> In k (map ckey cs2)).
+Proof. exact strategy_independent. Qed.
+Print Assumptions C03_strategy_independent.
+
 (* The array loser tree of pkg/losertree (New, moveNext, playGame, replayGames, Next):
    for ANY input streams its output is a permutation of the inputs, produced by always
    advancing a stream with a minimal head; on label-sorted streams it is label-sorted. *)
